@@ -66,436 +66,443 @@ def run(ck):
                  "every normal exit lies behind the completed wait and a test of the simulator's "
                  "error state", 'M1', 2)
 
-    from rules.shared import undef_refused_everywhere
-    undef_refused_everywhere(ck, R6)
-    g = ck.cfg(isb.fid, 'M1')
-    bp = isb.node.args.args[0].arg          # blk
-    steps_w = nodes_writing_attr(g, 'init_steps_completed', base=bp)
+    with ck.section('R05.1'):
+        from rules.shared import undef_refused_everywhere
+        undef_refused_everywhere(ck, R6)
+        g = ck.cfg(isb.fid, 'M1')
+        bp = isb.node.args.args[0].arg          # blk
+        steps_w = nodes_writing_attr(g, 'init_steps_completed', base=bp)
 
-    def events(n):
-        ev = []
-        if n in steps_w:
-            v = _const_int(written_value(n, 'init_steps_completed'))
-            ev.append({-1: 'm1', -2: 'm2', 1: 'd1', 2: 'd2'}.get(v, 'wX'))
-        for c in node_calls(n):
-            cn = call_name(c)
-            if cn == 'init_from_persistent_data':
-                ev.append('P')
-            elif cn == 'init_regular':
-                ev.append('R')
-            elif cn == 'init_from_value':
-                ev.append('V')
-        return ev
-    try:
-        ok, wit, st = check_language(g, "( m1 P? d1 )? ( m2 R V? d2 )?", events, [g.exit])
-        ck.product_states += st['product_states']
-        ck.ob(R1, f"{isb.fid} :: step protocol", ok,
-              "every normal path follows (marker, restore?, 1)? (marker, regular, from-value?, 2)?"
-              if ok else f"a path performs {' '.join(wit[1])}", isb, isb.node,
-              witness=path_witness(g, wit[0]) if wit else None)
-    except Exception as err:
-        ck.ob(R1, f"{isb.fid} :: step protocol", False, f"unexpected step: {err}", isb, isb.node)
-    # ---- the same protocol decided by an abstract run of init_sblock on every combination of
-    # (steps completed, full, persistent add-on?, initialised by the restore?, initialised by the
-    # regular routine?, init_from_value defined?, initdef given?) with recording hooks: independent
-    # of how the function is laid out (helpers, nesting, duplicated arms)
-    from sa.minieval import MiniEval
-    import itertools as _it
-    fullp = isb.node.args.args[2].arg if len(isb.node.args.args) > 2 else (
-        isb.node.args.kwonlyargs[0].arg if isb.node.args.kwonlyargs else 'full')
-    run_bad = []
-    n_run = 0
-    for steps_, full_, pers_, ini_r, ini_g, hasm, defd in _it.product(
-            (-2, -1, 0, 1, 2), (False, True), (False, True), (False, True), (False, True),
-            (False, True), (False, True)):
-        trace = []
-        state = {'init': False}
-
-        def _restore(trace=trace, state=state, ini_r=ini_r):
-            trace.append('P')
-            state['init'] = state['init'] or ini_r
-
-        def _regular(trace=trace, state=state, ini_g=ini_g):
-            trace.append('R')
-            state['init'] = state['init'] or ini_g
-
-        def _fromvalue(v, trace=trace, state=state):
-            trace.append(f'V:{v}')
-            state['init'] = True
-        env = {bp: 'BLK', fullp: full_, f'{bp}.init_steps_completed': steps_,
-               f'isinstance({bp}, addons.AddonPersistence)': pers_, f'{bp}.persistent': pers_,
-               f'{bp}.init_from_persistent_data': _restore, f'{bp}.init_regular': _regular,
-               f'{bp}.init_from_value': _fromvalue,
-               f'{bp}.is_initialized': lambda state=state: state['init'],
-               f'{bp}.has_method': lambda name, hasm=hasm: hasm and name == 'init_from_value',
-               f'{bp}.initdef': 'INITDEF' if defd else 'UNDEF', 'block.UNDEF': 'UNDEF',
-               '__setattr__': lambda k, v, trace=trace: trace.append(f'm{v}') if k.endswith('init_steps_completed') else None}
+        def events(n):
+            ev = []
+            if n in steps_w:
+                v = _const_int(written_value(n, 'init_steps_completed'))
+                ev.append({-1: 'm1', -2: 'm2', 1: 'd1', 2: 'd2'}.get(v, 'wX'))
+            for c in node_calls(n):
+                cn = call_name(c)
+                if cn == 'init_from_persistent_data':
+                    ev.append('P')
+                elif cn == 'init_regular':
+                    ev.append('R')
+                elif cn == 'init_from_value':
+                    ev.append('V')
+            return ev
         try:
-            out = MiniEval(R1, env).run(isb.node.body)
-        except Exception as err:        # outside the fragment: this formulation abstains
-            run_bad = None
-            ck.note(f"R05.1 abstract run not applicable: {err}")
-            break
-        n_run += 1
-        ck.abstract_cases += 1
-        want = []
-        if steps_ == 0:
-            want += ['m-1'] + (['P'] if pers_ else []) + ['m1']
-        if steps_ == 1 or (steps_ == 0 and full_):
-            init_now = (pers_ and ini_r and steps_ == 0) or ini_g
-            want += ['m-2', 'R'] + (['V:INITDEF'] if (not init_now and hasm and defd) else []) + ['m2']
-        if out[0] != 'return' or trace != want:
-            run_bad.append(f"steps={steps_}, full={full_}, persistent={pers_}, restored={ini_r}, "
-                           f"regular initialises={ini_g}, has init_from_value={hasm}, initdef given={defd}: "
-                           f"{trace} ({out[0]}), documented {want}")
-    run_ok = run_bad is not None and not run_bad
-    if run_bad is not None:
-        ck.ob(R1, f"{isb.fid} :: abstract run of the step protocol", run_ok,
-              f"evaluated on {n_run} combinations: markers, restore, regular routine and initdef "
-              f"fall-back are called exactly as documented" if run_ok else "; ".join(run_bad[:3]), isb, isb.node)
-    pn = nodes_calling(g, 'init_from_persistent_data')
-    ok = len(pn) == 1 and g.has_guard(pn[0], f'isinstance({bp}, addons.AddonPersistence)', True) \
-        and g.has_guard(pn[0], f'{bp}.persistent', True)
-    ck.ob(R1, f"{isb.fid} :: restore guard", ok or run_ok,
-          "restored only for a persistent block with the persistence add-on" if ok else
-          "init_from_persistent_data is not guarded by isinstance(AddonPersistence) and "
-          ".persistent", isb, pn[0].ast if pn else isb.node)
-    vn = nodes_calling(g, 'init_from_value')
-    ok = len(vn) == 1
-    if ok:
-        c = node_calls(vn[0], 'init_from_value')[0]
-        ok = [norm(a) for a in c.args] == [f'{bp}.initdef'] and \
-            g.has_guard(vn[0], f'{bp}.is_initialized()', False) and \
-            g.has_guard(vn[0], f"{bp}.has_method('init_from_value')", True) and \
-            g.has_guard(vn[0], f'{bp}.initdef is block.UNDEF', False)
-    ck.ob(R1, f"{isb.fid} :: init_from_value guard", ok or run_ok,
-          "init_from_value(blk.initdef) only if still uninitialised, defined, and initdef given"
-          if ok else "init_from_value is not guarded by (uninitialised, method exists, initdef "
-          "is not UNDEF) or does not receive blk.initdef", isb, vn[0].ast if vn else isb.node)
-    rn = nodes_calling(g, 'init_regular')
-    okr = len(rn) == 1 and bool(vn) and g.dominates(rn[0], vn[0])
-    ck.ob(R1, f"{isb.fid} :: regular before from-value", okr or run_ok,
-          "init_regular precedes init_from_value" if okr else
-          "init_from_value can run before (or without) init_regular", isb, rn[0].ast if rn else isb.node)
+            ok, wit, st = check_language(g, "( m1 P? d1 )? ( m2 R V? d2 )?", events, [g.exit])
+            ck.product_states += st['product_states']
+            ck.ob(R1, f"{isb.fid} :: step protocol", ok,
+                  "every normal path follows (marker, restore?, 1)? (marker, regular, from-value?, 2)?"
+                  if ok else f"a path performs {' '.join(wit[1])}", isb, isb.node,
+                  witness=path_witness(g, wit[0]) if wit else None)
+        except Exception as err:
+            ck.ob(R1, f"{isb.fid} :: step protocol", False, f"unexpected step: {err}", isb, isb.node)
+        # ---- the same protocol decided by an abstract run of init_sblock on every combination of
+        # (steps completed, full, persistent add-on?, initialised by the restore?, initialised by the
+        # regular routine?, init_from_value defined?, initdef given?) with recording hooks: independent
+        # of how the function is laid out (helpers, nesting, duplicated arms)
+        from sa.minieval import MiniEval
+        import itertools as _it
+        fullp = isb.node.args.args[2].arg if len(isb.node.args.args) > 2 else (
+            isb.node.args.kwonlyargs[0].arg if isb.node.args.kwonlyargs else 'full')
+        run_bad = []
+        n_run = 0
+        for steps_, full_, pers_, ini_r, ini_g, hasm, defd in _it.product(
+                (-2, -1, 0, 1, 2), (False, True), (False, True), (False, True), (False, True),
+                (False, True), (False, True)):
+            trace = []
+            state = {'init': False}
 
-    # ------------------------------------------------------------------ R05.2
-    sinit = prog.func('block:SBlock.__init__')
-    own(ck, R2, 'init_steps_completed', {sinit.fid: '0', isb.fid: 'markers and step numbers'})
-    snap = nodes_where(g, lambda n: isinstance(n.ast, ast.Assign) and
-                       norm(n.ast.value) == f'{bp}.init_steps_completed')
-    ok = len(snap) == 1 and all(g.dominates(snap[0], w) for w in steps_w)
-    sv = norm(snap[0].ast.targets[0]) if snap else None
-    ck.ob(R2, f"{isb.fid} :: snapshot", ok,
-          f"the guards read `{sv}`, taken before any marker is written" if ok else
-          "the step guards do not read a snapshot taken before the first marker", isb,
-          snap[0].ast if snap else isb.node)
-    if sv:
-        m1 = [w for w in steps_w if _const_int(written_value(w, 'init_steps_completed')) == -1]
-        m2 = [w for w in steps_w if _const_int(written_value(w, 'init_steps_completed')) == -2]
-        ok1 = bool(m1) and all(g.has_guard(w, f'{sv} == 0', True) for w in m1)
-        ck.ob(R2, f"{isb.fid} :: step-1 guard", ok1,
-              "step 1 runs only when no step was completed" if ok1 else
-              "step 1 (restore) can run again for a block that already completed it", isb,
-              m1[0].ast if m1 else isb.node)
-        ok2 = False
-        for n in g.nodes:
-            if n.kind == 'branch' and n.polarity and m2 and g.dominates(n, m2[0]):
-                t = n.test.ast
-                vals = {}
-                for s in (-2, -1, 0, 1, 2):
-                    for full in (False, True):
-                        try:
-                            vals[(s, full)] = bool(Interp(R2, {sv: s, 'full': full}, 'ordering').ev(t))
-                        except Exception:
-                            vals = None
+            def _restore(trace=trace, state=state, ini_r=ini_r):
+                trace.append('P')
+                state['init'] = state['init'] or ini_r
+
+            def _regular(trace=trace, state=state, ini_g=ini_g):
+                trace.append('R')
+                state['init'] = state['init'] or ini_g
+
+            def _fromvalue(v, trace=trace, state=state):
+                trace.append(f'V:{v}')
+                state['init'] = True
+            env = {bp: 'BLK', fullp: full_, f'{bp}.init_steps_completed': steps_,
+                   f'isinstance({bp}, addons.AddonPersistence)': pers_, f'{bp}.persistent': pers_,
+                   f'{bp}.init_from_persistent_data': _restore, f'{bp}.init_regular': _regular,
+                   f'{bp}.init_from_value': _fromvalue,
+                   f'{bp}.is_initialized': lambda state=state: state['init'],
+                   f'{bp}.has_method': lambda name, hasm=hasm: hasm and name == 'init_from_value',
+                   f'{bp}.initdef': 'INITDEF' if defd else 'UNDEF', 'block.UNDEF': 'UNDEF',
+                   '__setattr__': lambda k, v, trace=trace: trace.append(f'm{v}') if k.endswith('init_steps_completed') else None}
+            try:
+                out = MiniEval(R1, env).run(isb.node.body)
+            except Exception as err:        # outside the fragment: this formulation abstains
+                run_bad = None
+                ck.note(f"R05.1 abstract run not applicable: {err}")
+                break
+            n_run += 1
+            ck.abstract_cases += 1
+            want = []
+            if steps_ == 0:
+                want += ['m-1'] + (['P'] if pers_ else []) + ['m1']
+            if steps_ == 1 or (steps_ == 0 and full_):
+                init_now = (pers_ and ini_r and steps_ == 0) or ini_g
+                want += ['m-2', 'R'] + (['V:INITDEF'] if (not init_now and hasm and defd) else []) + ['m2']
+            if out[0] != 'return' or trace != want:
+                run_bad.append(f"steps={steps_}, full={full_}, persistent={pers_}, restored={ini_r}, "
+                               f"regular initialises={ini_g}, has init_from_value={hasm}, initdef given={defd}: "
+                               f"{trace} ({out[0]}), documented {want}")
+        run_ok = run_bad is not None and not run_bad
+        if run_bad is not None:
+            ck.ob(R1, f"{isb.fid} :: abstract run of the step protocol", run_ok,
+                  f"evaluated on {n_run} combinations: markers, restore, regular routine and initdef "
+                  f"fall-back are called exactly as documented" if run_ok else "; ".join(run_bad[:3]), isb, isb.node)
+        pn = nodes_calling(g, 'init_from_persistent_data')
+        ok = len(pn) == 1 and g.has_guard(pn[0], f'isinstance({bp}, addons.AddonPersistence)', True) \
+            and g.has_guard(pn[0], f'{bp}.persistent', True)
+        ck.ob(R1, f"{isb.fid} :: restore guard", ok or run_ok,
+              "restored only for a persistent block with the persistence add-on" if ok else
+              "init_from_persistent_data is not guarded by isinstance(AddonPersistence) and "
+              ".persistent", isb, pn[0].ast if pn else isb.node)
+        vn = nodes_calling(g, 'init_from_value')
+        ok = len(vn) == 1
+        if ok:
+            c = node_calls(vn[0], 'init_from_value')[0]
+            ok = [norm(a) for a in c.args] == [f'{bp}.initdef'] and \
+                g.has_guard(vn[0], f'{bp}.is_initialized()', False) and \
+                g.has_guard(vn[0], f"{bp}.has_method('init_from_value')", True) and \
+                g.has_guard(vn[0], f'{bp}.initdef is block.UNDEF', False)
+        ck.ob(R1, f"{isb.fid} :: init_from_value guard", ok or run_ok,
+              "init_from_value(blk.initdef) only if still uninitialised, defined, and initdef given"
+              if ok else "init_from_value is not guarded by (uninitialised, method exists, initdef "
+              "is not UNDEF) or does not receive blk.initdef", isb, vn[0].ast if vn else isb.node)
+        rn = nodes_calling(g, 'init_regular')
+        okr = len(rn) == 1 and bool(vn) and g.dominates(rn[0], vn[0])
+        ck.ob(R1, f"{isb.fid} :: regular before from-value", okr or run_ok,
+              "init_regular precedes init_from_value" if okr else
+              "init_from_value can run before (or without) init_regular", isb, rn[0].ast if rn else isb.node)
+
+    with ck.section('R05.2'):
+        # ------------------------------------------------------------------ R05.2
+        sinit = prog.func('block:SBlock.__init__')
+        own(ck, R2, 'init_steps_completed', {sinit.fid: '0', isb.fid: 'markers and step numbers'})
+        snap = nodes_where(g, lambda n: isinstance(n.ast, ast.Assign) and
+                           norm(n.ast.value) == f'{bp}.init_steps_completed')
+        ok = len(snap) == 1 and all(g.dominates(snap[0], w) for w in steps_w)
+        sv = norm(snap[0].ast.targets[0]) if snap else None
+        ck.ob(R2, f"{isb.fid} :: snapshot", ok,
+              f"the guards read `{sv}`, taken before any marker is written" if ok else
+              "the step guards do not read a snapshot taken before the first marker", isb,
+              snap[0].ast if snap else isb.node)
+        if sv:
+            m1 = [w for w in steps_w if _const_int(written_value(w, 'init_steps_completed')) == -1]
+            m2 = [w for w in steps_w if _const_int(written_value(w, 'init_steps_completed')) == -2]
+            ok1 = bool(m1) and all(g.has_guard(w, f'{sv} == 0', True) for w in m1)
+            ck.ob(R2, f"{isb.fid} :: step-1 guard", ok1,
+                  "step 1 runs only when no step was completed" if ok1 else
+                  "step 1 (restore) can run again for a block that already completed it", isb,
+                  m1[0].ast if m1 else isb.node)
+            ok2 = False
+            for n in g.nodes:
+                if n.kind == 'branch' and n.polarity and m2 and g.dominates(n, m2[0]):
+                    t = n.test.ast
+                    vals = {}
+                    for s in (-2, -1, 0, 1, 2):
+                        for full in (False, True):
+                            try:
+                                vals[(s, full)] = bool(Interp(R2, {sv: s, 'full': full}, 'ordering').ev(t))
+                            except Exception:
+                                vals = None
+                                break
+                        if vals is None:
                             break
-                    if vals is None:
+                    if vals is not None:
+                        want = {(s, f): (s == 1 or (s == 0 and f)) for s in (-2, -1, 0, 1, 2)
+                                for f in (False, True)}
+                        ok2 = ok2 or vals == want
+            ck.ob(R2, f"{isb.fid} :: step-2 guard", ok2 or run_ok,
+                  "step 2 runs for snapshot 1, or 0 with full=True -- never for a step in progress or "
+                  "completed (evaluated on all 10 cases)" if ok2 else
+                  "the guard of step 2 is not `steps == 1 or steps == 0 and full`", isb,
+                  m2[0].ast if m2 else isb.node)
+        ev = prog.func('block:SBlock.event')
+        ge = ck.cfg(ev.fid, 'M0')
+        early = nodes_calling(ge, 'init_sblock')
+        ok = len(early) == 1
+        why = "early initialisation call not found"
+        if ok:
+            c = node_calls(early[0], 'init_sblock')[0]
+            full_ok = any(k.arg == 'full' and is_const(k.value, True) for k in c.keywords) and \
+                [norm(a) for a in c.args] == ['self']
+            rng = None
+            for e, p in ge.guards(early[0]):
+                if 'init_steps_completed' in norm(e):
+                    rng = (e, p)
+            truth = {}
+            if rng is not None:
+                for s in (-2, -1, 0, 1, 2):
+                    try:
+                        v = bool(Interp(R2, {'self.init_steps_completed': s}, 'ordering').ev(rng[0]))
+                        truth[s] = v if rng[1] else not v
+                    except Exception:
+                        truth = None
                         break
-                if vals is not None:
-                    want = {(s, f): (s == 1 or (s == 0 and f)) for s in (-2, -1, 0, 1, 2)
-                            for f in (False, True)}
-                    ok2 = ok2 or vals == want
-        ck.ob(R2, f"{isb.fid} :: step-2 guard", ok2 or run_ok,
-              "step 2 runs for snapshot 1, or 0 with full=True -- never for a step in progress or "
-              "completed (evaluated on all 10 cases)" if ok2 else
-              "the guard of step 2 is not `steps == 1 or steps == 0 and full`", isb,
-              m2[0].ast if m2 else isb.node)
-    ev = prog.func('block:SBlock.event')
-    ge = ck.cfg(ev.fid, 'M0')
-    early = nodes_calling(ge, 'init_sblock')
-    ok = len(early) == 1
-    why = "early initialisation call not found"
-    if ok:
-        c = node_calls(early[0], 'init_sblock')[0]
-        full_ok = any(k.arg == 'full' and is_const(k.value, True) for k in c.keywords) and \
-            [norm(a) for a in c.args] == ['self']
-        rng = None
-        for e, p in ge.guards(early[0]):
-            if 'init_steps_completed' in norm(e):
-                rng = (e, p)
-        truth = {}
-        if rng is not None:
-            for s in (-2, -1, 0, 1, 2):
-                try:
-                    v = bool(Interp(R2, {'self.init_steps_completed': s}, 'ordering').ev(rng[0]))
-                    truth[s] = v if rng[1] else not v
-                except Exception:
-                    truth = None
-                    break
-        in_with = any(isinstance(w, ast.With) and '_enable_event' in norm(w.items[0].context_expr)
-                      and any(x is c for s in w.body for x in walk_shallow(s))
-                      for w in own_nodes(ev.node))
-        ok = full_ok and truth == {-2: False, -1: False, 0: True, 1: True, 2: False} and in_with
-        why = (f"init_sblock(self, full=True) under the range test (true exactly for 0 and 1), "
-               f"inside `with self._enable_event`" if ok else
-               f"early initialisation: full=True: {full_ok}; range test truth table {truth}; "
-               f"guard lifted: {in_with}")
-    ck.ob(R2, f"{ev.fid} :: early initialisation", ok, why, ev, early[0].ast if early else ev.node)
-    for hook, allowed in (('init_regular', {isb.fid}), ('init_from_value', {isb.fid}),
-                          ('init_from_persistent_data', {isb.fid}),
-                          ('init_async', {f'{CIRC}._init_sblocks_async'})):
-        callers = set()
-        for fi, c in call_sites(ck, hook):
-            if isinstance(c.func, ast.Attribute) and isinstance(c.func.value, ast.Call) and \
-                    norm(c.func.value.func) == 'super':
-                continue        # cooperative super() chains inside the hook itself
-            callers.add(fi.fid)
-        ok = callers == allowed
-        ck.ob(R2, f"who calls {hook}", ok, f"{hook} is called by {sorted(callers)}" +
-              ('' if ok else f" (expected only {sorted(allowed)}): the routine could run twice"),
-              None, 'edzed/simulator.py:1')
+            in_with = any(isinstance(w, ast.With) and '_enable_event' in norm(w.items[0].context_expr)
+                          and any(x is c for s in w.body for x in walk_shallow(s))
+                          for w in own_nodes(ev.node))
+            ok = full_ok and truth == {-2: False, -1: False, 0: True, 1: True, 2: False} and in_with
+            why = (f"init_sblock(self, full=True) under the range test (true exactly for 0 and 1), "
+                   f"inside `with self._enable_event`" if ok else
+                   f"early initialisation: full=True: {full_ok}; range test truth table {truth}; "
+                   f"guard lifted: {in_with}")
+        ck.ob(R2, f"{ev.fid} :: early initialisation", ok, why, ev, early[0].ast if early else ev.node)
+        for hook, allowed in (('init_regular', {isb.fid}), ('init_from_value', {isb.fid}),
+                              ('init_from_persistent_data', {isb.fid}),
+                              ('init_async', {f'{CIRC}._init_sblocks_async'})):
+            callers = set()
+            for fi, c in call_sites(ck, hook):
+                if isinstance(c.func, ast.Attribute) and isinstance(c.func.value, ast.Call) and \
+                        norm(c.func.value.func) == 'super':
+                    continue        # cooperative super() chains inside the hook itself
+                callers.add(fi.fid)
+            ok = callers == allowed
+            ck.ob(R2, f"who calls {hook}", ok, f"{hook} is called by {sorted(callers)}" +
+                  ('' if ok else f" (expected only {sorted(allowed)}): the routine could run twice"),
+                  None, 'edzed/simulator.py:1')
 
-    # ------------------------------------------------------------------ R05.3
-    rf = circ.methods['run_forever']
-    gr = ck.cfg(rf.fid, 'M1')
-    start_loop = [n for n in gr.nodes if n.kind == 'for' and 'getblocks()' in norm(n.ast.iter)
-                  and any(call_name(c) == 'start' for s in n.ast.body for c in [x for x in walk_shallow(s)
-                                                                                 if isinstance(x, ast.Call)])]
-    s1 = nodes_calling(gr, '_init_sblocks_sync_1')
-    a = nodes_calling(gr, '_init_sblocks_async')
-    s2 = nodes_calling(gr, '_init_sblocks_sync_2')
-    d = nodes_where(gr, lambda n: any(call_name(c) == 'set' and recv(c) == 'self._init_done'
-                                      for c in node_calls(n)))
-    sim = nodes_calling(gr, '_simulate')
-    chain = [start_loop, s1, a, s2, d, sim]
-    ok = all(len(x) == 1 for x in chain)
-    if ok:
-        for x, y in zip(chain, chain[1:]):
-            ok = ok and gr.dominates(x[0], y[0])
-        sleeps = [n for n in nodes_calling(gr, 'sleep') if gr.dominates(start_loop[0], n)
-                  and gr.dominates(n, s1[0])]
-        ok = ok and bool(sleeps)
-        ok = ok and any(isinstance(x, ast.Await) for x in walk_shallow(a[0].ast)) and \
-            any(isinstance(x, ast.Await) for x in walk_shallow(sim[0].ast))
-    ck.ob(R3, f"{rf.fid} :: phases", ok,
-          "start loop -> yield -> sync 1 -> await async -> sync 2 -> initialized -> await simulate"
-          if ok else "the start-up phases are not executed in the documented order", rf, rf.node)
-    okd = len(d) == 1 and gr.has_guard(d[0], 'self._error is None', True)
-    ck.ob(R3, f"{rf.fid} :: initialized signal", okd,
-          "_init_done.set() only when no error was recorded" if okd else
-          "the 'initialized' signal can be given although an error was recorded", rf,
-          d[0].ast if d else rf.node)
-    sets = [(fi.fid) for fi in prog.pkg_funcs() for x in own_nodes(fi.node)
-            if isinstance(x, ast.Call) and call_name(x) == 'set' and '_init_done' in recv(x)]
-    ck.ob(R3, "who sets _init_done", sets == [rf.fid], f"_init_done.set() sites: {sets}", rf, rf.node)
+    with ck.section('R05.3'):
+        # ------------------------------------------------------------------ R05.3
+        rf = circ.methods['run_forever']
+        gr = ck.cfg(rf.fid, 'M1')
+        start_loop = [n for n in gr.nodes if n.kind == 'for' and 'getblocks()' in norm(n.ast.iter)
+                      and any(call_name(c) == 'start' for s in n.ast.body for c in [x for x in walk_shallow(s)
+                                                                                     if isinstance(x, ast.Call)])]
+        s1 = nodes_calling(gr, '_init_sblocks_sync_1')
+        a = nodes_calling(gr, '_init_sblocks_async')
+        s2 = nodes_calling(gr, '_init_sblocks_sync_2')
+        d = nodes_where(gr, lambda n: any(call_name(c) == 'set' and recv(c) == 'self._init_done'
+                                          for c in node_calls(n)))
+        sim = nodes_calling(gr, '_simulate')
+        chain = [start_loop, s1, a, s2, d, sim]
+        ok = all(len(x) == 1 for x in chain)
+        if ok:
+            for x, y in zip(chain, chain[1:]):
+                ok = ok and gr.dominates(x[0], y[0])
+            sleeps = [n for n in nodes_calling(gr, 'sleep') if gr.dominates(start_loop[0], n)
+                      and gr.dominates(n, s1[0])]
+            ok = ok and bool(sleeps)
+            ok = ok and any(isinstance(x, ast.Await) for x in walk_shallow(a[0].ast)) and \
+                any(isinstance(x, ast.Await) for x in walk_shallow(sim[0].ast))
+        ck.ob(R3, f"{rf.fid} :: phases", ok,
+              "start loop -> yield -> sync 1 -> await async -> sync 2 -> initialized -> await simulate"
+              if ok else "the start-up phases are not executed in the documented order", rf, rf.node)
+        okd = len(d) == 1 and gr.has_guard(d[0], 'self._error is None', True)
+        ck.ob(R3, f"{rf.fid} :: initialized signal", okd,
+              "_init_done.set() only when no error was recorded" if okd else
+              "the 'initialized' signal can be given although an error was recorded", rf,
+              d[0].ast if d else rf.node)
+        sets = [(fi.fid) for fi in prog.pkg_funcs() for x in own_nodes(fi.node)
+                if isinstance(x, ast.Call) and call_name(x) == 'set' and '_init_done' in recv(x)]
+        ck.ob(R3, "who sets _init_done", sets == [rf.fid], f"_init_done.set() sites: {sets}", rf, rf.node)
 
-    # ------------------------------------------------------------------ R05.4
-    s2f = circ.methods['_init_sblocks_sync_2']
-    g2 = ck.cfg(s2f.fid, 'M0')
-    loops = [n for n in g2.nodes if n.kind == 'for']
-    init_loop = [l for l in loops if any(call_name(c) == 'init_sblock' for s in l.ast.body
-                                         for c in [x for x in walk_shallow(s) if isinstance(x, ast.Call)])]
-    chk = nodes_where(g2, lambda n: isinstance(n.ast, ast.Raise) and
-                      g2.has_guard(n, 'blk.is_initialized()', False), kinds=('stmt',))
-    ok = len(init_loop) == 1 and len(chk) == 1
-    if ok:
-        l1 = init_loop[0]
-        body1 = g2.reachable_from(g2.nodes[[v for v, lab in g2.succ[l1.id] if lab == 'iter'][0]], avoid=[l1])
-        in_body = chk[0].id in body1
-        early_exit = [n for n in g2.nodes if n.id in body1 and n.kind == 'stmt'
-                      and isinstance(n.ast, (ast.Raise, ast.Return, ast.Break))]
-        ok = not in_body and not early_exit and g2.dominates(l1, chk[0])
-    ck.ob(R4, f"{s2f.fid} :: check after the whole initialisation loop", ok,
-          "no block is tested before every block ran its initialisation (a block may be "
-          "initialised by an event sent from a later block's initialisation)" if ok else
-          "a block can be declared 'not initialized' before all blocks ran their initialisation: "
-          "start-up would depend on the creation order", s2f, chk[0].ast if chk else s2f.node)
-    for fid in (s2f.fid, f'{CIRC}._init_sblocks_sync_1'):
-        fi = prog.func(fid)
-        gx = ck.cfg(fid, 'M0')
-        ls = [n for n in gx.nodes if n.kind == 'for' and
-              any(x for s in n.ast.body for x in walk_shallow(s)
-                  if isinstance(x, ast.Call) and call_name(x) in ('init_sblock', 'is_initialized'))]
-        ok = bool(ls) and all(norm(l.ast.iter) == 'self.getblocks(block.SBlock)' for l in ls)
-        ck.ob(R4, f"{fid} :: all sequential blocks", ok,
-              "iterates self.getblocks(block.SBlock)" if ok else
-              "an initialisation loop does not cover all sequential blocks", fi, fi.node)
-    c1 = [c for f_, c in call_sites(ck, 'init_sblock') if f_.fid in (s2f.fid, f'{CIRC}._init_sblocks_sync_1')]
-    ok = len(c1) == 2 and all(any(k.arg == 'full' and is_const(k.value, False) for k in c.keywords) for c in c1)
-    ck.ob(R4, "two half-steps", ok, "both synchronous phases call init_sblock(blk, full=False)"
-          if ok else "the synchronous phases do not perform the two half-steps", s2f, s2f.node)
+    with ck.section('R05.4'):
+        # ------------------------------------------------------------------ R05.4
+        s2f = circ.methods['_init_sblocks_sync_2']
+        g2 = ck.cfg(s2f.fid, 'M0')
+        loops = [n for n in g2.nodes if n.kind == 'for']
+        init_loop = [l for l in loops if any(call_name(c) == 'init_sblock' for s in l.ast.body
+                                             for c in [x for x in walk_shallow(s) if isinstance(x, ast.Call)])]
+        chk = nodes_where(g2, lambda n: isinstance(n.ast, ast.Raise) and
+                          g2.has_guard(n, 'blk.is_initialized()', False), kinds=('stmt',))
+        ok = len(init_loop) == 1 and len(chk) == 1
+        if ok:
+            l1 = init_loop[0]
+            body1 = g2.reachable_from(g2.nodes[[v for v, lab in g2.succ[l1.id] if lab == 'iter'][0]], avoid=[l1])
+            in_body = chk[0].id in body1
+            early_exit = [n for n in g2.nodes if n.id in body1 and n.kind == 'stmt'
+                          and isinstance(n.ast, (ast.Raise, ast.Return, ast.Break))]
+            ok = not in_body and not early_exit and g2.dominates(l1, chk[0])
+        ck.ob(R4, f"{s2f.fid} :: check after the whole initialisation loop", ok,
+              "no block is tested before every block ran its initialisation (a block may be "
+              "initialised by an event sent from a later block's initialisation)" if ok else
+              "a block can be declared 'not initialized' before all blocks ran their initialisation: "
+              "start-up would depend on the creation order", s2f, chk[0].ast if chk else s2f.node)
+        for fid in (s2f.fid, f'{CIRC}._init_sblocks_sync_1'):
+            fi = prog.func(fid)
+            gx = ck.cfg(fid, 'M0')
+            ls = [n for n in gx.nodes if n.kind == 'for' and
+                  any(x for s in n.ast.body for x in walk_shallow(s)
+                      if isinstance(x, ast.Call) and call_name(x) in ('init_sblock', 'is_initialized'))]
+            ok = bool(ls) and all(norm(l.ast.iter) == 'self.getblocks(block.SBlock)' for l in ls)
+            ck.ob(R4, f"{fid} :: all sequential blocks", ok,
+                  "iterates self.getblocks(block.SBlock)" if ok else
+                  "an initialisation loop does not cover all sequential blocks", fi, fi.node)
+        c1 = [c for f_, c in call_sites(ck, 'init_sblock') if f_.fid in (s2f.fid, f'{CIRC}._init_sblocks_sync_1')]
+        ok = len(c1) == 2 and all(any(k.arg == 'full' and is_const(k.value, False) for k in c.keywords) for c in c1)
+        ck.ob(R4, "two half-steps", ok, "both synchronous phases call init_sblock(blk, full=False)"
+              if ok else "the synchronous phases do not perform the two half-steps", s2f, s2f.node)
 
-    # ------------------------------------------------------------------ R05.5
-    af = circ.methods['_init_sblocks_async']
-    comp = [x for x in own_nodes(af.node) if isinstance(x, ast.ListComp)]
-    ok = len(comp) == 1
-    if ok:
-        gen = comp[0].generators[0]
-        conj = []
-        for cond in gen.ifs:
-            conj.extend(decompose(cond, True))
-        facts = {canon_fact(e, p) for e, p in conj}
-        v = norm(gen.target)
-        want = {canon_fact(ast.parse(f'{v}.is_initialized()', mode='eval').body, False),
-                canon_fact(ast.parse(f"{v}.has_method('init_async')", mode='eval').body, True),
-                canon_fact(ast.parse(f'{v}.init_timeout > 0.0', mode='eval').body, True)}
-        ok = want <= facts and norm(gen.iter) == 'self.getblocks(addons.AddonAsync)'
-        elt = comp[0].elt
-        ok = ok and isinstance(elt, ast.Tuple) and len(elt.elts) == 3 and norm(elt.elts[0]) == v and \
-            norm(elt.elts[2]) == f'{v}.init_timeout' and isinstance(elt.elts[1], ast.Call) and \
-            call_name(elt.elts[1]) in ('create_task', 'ensure_future') and \
-            norm(elt.elts[1].args[0]) == f'{v}.init_async()'
-    ck.ob(R5, f"{af.fid} :: selection", ok,
-          "a task per block that is uninitialised, defines init_async and has init_timeout > 0"
-          if ok else "the async initialisation is not selected by (uninitialised, has init_async, "
-          "init_timeout > 0.0) or the (block, task, time-out) triple is malformed", af,
-          comp[0] if comp else af.node)
-    ga = ck.cfg(af.fid, 'M0')
-    rt = nodes_calling(ga, '_run_tasks')
-    ok = len(rt) == 1 and any(isinstance(x, ast.Await) for x in walk_shallow(rt[0].ast))
-    if ok:
-        c = node_calls(rt[0], '_run_tasks')[0]
-        lst = norm(c.args[1]) if len(c.args) > 1 else None
-        defs = [n for n in ga.nodes if n.kind == 'stmt' and isinstance(n.ast, ast.Assign)
-                and norm(n.ast.targets[0]) == lst]
-        ok = len(defs) == 1 and comp and defs[0].ast.value is comp[0]
-        skip = ga.path_avoiding(ga.entry, [ga.exit], avoid=rt)
-        ok = ok and (skip is None or any(n.kind == 'branch' and not n.polarity and norm(n.test.ast) == lst
-                                         for n in skip))
-    ck.ob(R5, f"{af.fid} :: tasks are awaited", ok,
-          "all created tasks are handed to `await self._run_tasks(...)`" if ok else
-          "created init_async tasks are not (all) handed to _run_tasks", af, af.node)
-    rtf = circ.methods['_run_tasks']
-    gt = ck.cfg(rtf.fid, 'M1')
-    awaits = nodes_where(gt, lambda n: any(isinstance(x, ast.Await) for r in node_roots(n)
-                                           for x in walk_shallow(r)))
-    ok = bool(awaits)
-    for n in awaits:
-        for r in node_roots(n):
-            for x in walk_shallow(r):
-                if isinstance(x, ast.Await):
-                    v = x.value
-                    good = isinstance(v, ast.Call) and norm(v.func) == 'asyncio.wait_for' and \
-                        len(v.args) == 2 and 'timeout' in norm(v.args[1]) and \
-                        ('get_time()' in norm(v.args[1]) or 'time()' in norm(v.args[1]))
-                    ok = ok and good
-    # the elapsed time is measured from ONE reference point taken before the loop: the waits share
-    # a single budget (otherwise each task would get its full time-out and the waits add up)
-    from sa.dataflow import node_defs as _nd
-    tloops = [n for n in gt.nodes if n.kind == 'for' and isinstance(n.ast.iter, ast.Call)
-              and call_name(n.ast.iter) == 'sorted']
-    shared = bool(awaits) and bool(tloops)
-    refname = None
-    if shared:
+    with ck.section('R05.5'):
+        # ------------------------------------------------------------------ R05.5
+        af = circ.methods['_init_sblocks_async']
+        comp = [x for x in own_nodes(af.node) if isinstance(x, ast.ListComp)]
+        ok = len(comp) == 1
+        if ok:
+            gen = comp[0].generators[0]
+            conj = []
+            for cond in gen.ifs:
+                conj.extend(decompose(cond, True))
+            facts = {canon_fact(e, p) for e, p in conj}
+            v = norm(gen.target)
+            want = {canon_fact(ast.parse(f'{v}.is_initialized()', mode='eval').body, False),
+                    canon_fact(ast.parse(f"{v}.has_method('init_async')", mode='eval').body, True),
+                    canon_fact(ast.parse(f'{v}.init_timeout > 0.0', mode='eval').body, True)}
+            ok = want <= facts and norm(gen.iter) == 'self.getblocks(addons.AddonAsync)'
+            elt = comp[0].elt
+            ok = ok and isinstance(elt, ast.Tuple) and len(elt.elts) == 3 and norm(elt.elts[0]) == v and \
+                norm(elt.elts[2]) == f'{v}.init_timeout' and isinstance(elt.elts[1], ast.Call) and \
+                call_name(elt.elts[1]) in ('create_task', 'ensure_future') and \
+                norm(elt.elts[1].args[0]) == f'{v}.init_async()'
+        ck.ob(R5, f"{af.fid} :: selection", ok,
+              "a task per block that is uninitialised, defines init_async and has init_timeout > 0"
+              if ok else "the async initialisation is not selected by (uninitialised, has init_async, "
+              "init_timeout > 0.0) or the (block, task, time-out) triple is malformed", af,
+              comp[0] if comp else af.node)
+        ga = ck.cfg(af.fid, 'M0')
+        rt = nodes_calling(ga, '_run_tasks')
+        ok = len(rt) == 1 and any(isinstance(x, ast.Await) for x in walk_shallow(rt[0].ast))
+        if ok:
+            c = node_calls(rt[0], '_run_tasks')[0]
+            lst = norm(c.args[1]) if len(c.args) > 1 else None
+            defs = [n for n in ga.nodes if n.kind == 'stmt' and isinstance(n.ast, ast.Assign)
+                    and norm(n.ast.targets[0]) == lst]
+            ok = len(defs) == 1 and comp and defs[0].ast.value is comp[0]
+            skip = ga.path_avoiding(ga.entry, [ga.exit], avoid=rt)
+            ok = ok and (skip is None or any(n.kind == 'branch' and not n.polarity and norm(n.test.ast) == lst
+                                             for n in skip))
+        ck.ob(R5, f"{af.fid} :: tasks are awaited", ok,
+              "all created tasks are handed to `await self._run_tasks(...)`" if ok else
+              "created init_async tasks are not (all) handed to _run_tasks", af, af.node)
+        rtf = circ.methods['_run_tasks']
+        gt = ck.cfg(rtf.fid, 'M1')
+        awaits = nodes_where(gt, lambda n: any(isinstance(x, ast.Await) for r in node_roots(n)
+                                               for x in walk_shallow(r)))
+        ok = bool(awaits)
         for n in awaits:
             for r in node_roots(n):
                 for x in walk_shallow(r):
-                    if isinstance(x, ast.Await) and isinstance(x.value, ast.Call) and len(x.value.args) == 2:
-                        names = [y.id for y in walk_shallow(x.value.args[1]) if isinstance(y, ast.Name)]
-                        refs = [nm for nm in names if nm not in ('timeout', 'get_time')]
-                        refname = refs[0] if len(refs) == 1 else None
-        if refname is None:
-            shared = False
-        else:
-            rdefs = [n for n in gt.nodes if n.kind in ('stmt', 'for', 'with') and refname in _nd(n)]
-            body = gt.reachable_from(gt.nodes[[v for v, lab in gt.succ[tloops[0].id] if lab == 'iter'][0]],
-                                     avoid=[tloops[0]])
-            shared = len(rdefs) == 1 and rdefs[0].id not in body and gt.dominates(rdefs[0], tloops[0]) \
-                and isinstance(rdefs[0].ast, ast.Assign) and norm(rdefs[0].ast.value) in ('get_time()',) \
-                and all(n.id in body for n in awaits)
-            # time-out minus elapsed: timeout - (now - start)  ==  timeout - now + start
+                    if isinstance(x, ast.Await):
+                        v = x.value
+                        good = isinstance(v, ast.Call) and norm(v.func) == 'asyncio.wait_for' and \
+                            len(v.args) == 2 and 'timeout' in norm(v.args[1]) and \
+                            ('get_time()' in norm(v.args[1]) or 'time()' in norm(v.args[1]))
+                        ok = ok and good
+        # the elapsed time is measured from ONE reference point taken before the loop: the waits share
+        # a single budget (otherwise each task would get its full time-out and the waits add up)
+        from sa.dataflow import node_defs as _nd
+        tloops = [n for n in gt.nodes if n.kind == 'for' and isinstance(n.ast.iter, ast.Call)
+                  and call_name(n.ast.iter) == 'sorted']
+        shared = bool(awaits) and bool(tloops)
+        refname = None
+        if shared:
             for n in awaits:
                 for r in node_roots(n):
                     for x in walk_shallow(r):
                         if isinstance(x, ast.Await) and isinstance(x.value, ast.Call) and len(x.value.args) == 2:
-                            shared = shared and _linear_form(x.value.args[1]) == {'timeout': 1, 'get_time()': -1,
-                                                                                 refname: 1}
-    ck.ob(R5, f"{rtf.fid} :: one shared time budget", shared,
-          f"remaining = timeout - (now - {refname}) with `{refname}` taken once before the loop: "
-          f"the total wait is bounded by the largest time-out" if shared else
-          "the reference time of the remaining-time computation is not taken exactly once before "
-          "the loop (each task would get its full time-out: the waits add up beyond the largest "
-          "init_timeout), or the expression is not timeout - elapsed", rtf,
-          awaits[0].ast if awaits else rtf.node)
-    ck.ob(R5, f"{rtf.fid} :: bounded waits", ok,
-          "every await is asyncio.wait_for(task, <time-out minus elapsed time>)" if ok else
-          "a task is awaited without a time-out derived from the block's time-out and the elapsed "
-          "time", rtf, awaits[0].ast if awaits else rtf.node)
-    loops = [n for n in gt.nodes if n.kind == 'for' and isinstance(n.ast.iter, ast.Call)
-             and call_name(n.ast.iter) == 'sorted']
-    ok = len(loops) >= 1
-    if ok:
-        it = loops[0].ast.iter
-        rev = kw(it, 'reverse')
-        key = kw(it, 'key')
-        ok = is_const(rev, True) and key is not None and \
-            norm(key) in ('operator.itemgetter(2)', 'lambda x: x[2]', 'lambda t: t[2]')
-    ck.ob(R5, f"{rtf.fid} :: longest time-out first", ok,
-          "tasks are awaited in descending time-out order: the total wait is bounded by the "
-          "largest time-out" if ok else
-          "the tasks are not awaited longest-time-out first (the total wait could exceed the "
-          "largest time-out)", rtf, loops[0].ast if loops else rtf.node)
+                            names = [y.id for y in walk_shallow(x.value.args[1]) if isinstance(y, ast.Name)]
+                            refs = [nm for nm in names if nm not in ('timeout', 'get_time')]
+                            refname = refs[0] if len(refs) == 1 else None
+            if refname is None:
+                shared = False
+            else:
+                rdefs = [n for n in gt.nodes if n.kind in ('stmt', 'for', 'with') and refname in _nd(n)]
+                body = gt.reachable_from(gt.nodes[[v for v, lab in gt.succ[tloops[0].id] if lab == 'iter'][0]],
+                                         avoid=[tloops[0]])
+                shared = len(rdefs) == 1 and rdefs[0].id not in body and gt.dominates(rdefs[0], tloops[0]) \
+                    and isinstance(rdefs[0].ast, ast.Assign) and norm(rdefs[0].ast.value) in ('get_time()',) \
+                    and all(n.id in body for n in awaits)
+                # time-out minus elapsed: timeout - (now - start)  ==  timeout - now + start
+                for n in awaits:
+                    for r in node_roots(n):
+                        for x in walk_shallow(r):
+                            if isinstance(x, ast.Await) and isinstance(x.value, ast.Call) and len(x.value.args) == 2:
+                                shared = shared and _linear_form(x.value.args[1]) == {'timeout': 1, 'get_time()': -1,
+                                                                                     refname: 1}
+        ck.ob(R5, f"{rtf.fid} :: one shared time budget", shared,
+              f"remaining = timeout - (now - {refname}) with `{refname}` taken once before the loop: "
+              f"the total wait is bounded by the largest time-out" if shared else
+              "the reference time of the remaining-time computation is not taken exactly once before "
+              "the loop (each task would get its full time-out: the waits add up beyond the largest "
+              "init_timeout), or the expression is not timeout - elapsed", rtf,
+              awaits[0].ast if awaits else rtf.node)
+        ck.ob(R5, f"{rtf.fid} :: bounded waits", ok,
+              "every await is asyncio.wait_for(task, <time-out minus elapsed time>)" if ok else
+              "a task is awaited without a time-out derived from the block's time-out and the elapsed "
+              "time", rtf, awaits[0].ast if awaits else rtf.node)
+        loops = [n for n in gt.nodes if n.kind == 'for' and isinstance(n.ast.iter, ast.Call)
+                 and call_name(n.ast.iter) == 'sorted']
+        ok = len(loops) >= 1
+        if ok:
+            it = loops[0].ast.iter
+            rev = kw(it, 'reverse')
+            key = kw(it, 'key')
+            ok = is_const(rev, True) and key is not None and \
+                norm(key) in ('operator.itemgetter(2)', 'lambda x: x[2]', 'lambda t: t[2]')
+        ck.ob(R5, f"{rtf.fid} :: longest time-out first", ok,
+              "tasks are awaited in descending time-out order: the total wait is bounded by the "
+              "largest time-out" if ok else
+              "the tasks are not awaited longest-time-out first (the total wait could exceed the "
+              "largest time-out)", rtf, loops[0].ast if loops else rtf.node)
 
-    # ------------------------------------------------------------------ R05.6
-    for fi in (isb, s2f, prog.func(f'{CIRC}._init_sblocks_sync_1')):
-        bad = [h for h in handlers_in(fi) if catches_broad(h) and not handler_reraises(fi, h)]
-        ck.ob(R6, f"{fi.fid} :: no swallow", not bad,
-              "initialisation errors propagate to the simulator" if not bad else
-              "an initialisation error is swallowed", fi, bad[0] if bad else fi.node)
-    ok = bool(chk) and chk[0].kinds == {'N:EdzedCircuitError'}
-    ck.need(R6, chk, "the 'not initialized' raise was not found")
+    with ck.section('R05.6'):
+        # ------------------------------------------------------------------ R05.6
+        for fi in (isb, s2f, prog.func(f'{CIRC}._init_sblocks_sync_1')):
+            bad = [h for h in handlers_in(fi) if catches_broad(h) and not handler_reraises(fi, h)]
+            ck.ob(R6, f"{fi.fid} :: no swallow", not bad,
+                  "initialisation errors propagate to the simulator" if not bad else
+                  "an initialisation error is swallowed", fi, bad[0] if bad else fi.node)
+        ok = bool(chk) and chk[0].kinds == {'N:EdzedCircuitError'}
+        ck.need(R6, chk, "the 'not initialized' raise was not found")
 
-    # ------------------------------------------------------------------ R05.7
-    wi = circ.methods.get('wait_init')
-    ck.need(R7, wi is not None, "Circuit.wait_init not found")
-    gw = ck.cfg(wi.fid, 'M1')
-    waits = nodes_where(gw, lambda n: any(isinstance(x, ast.Await) and isinstance(x.value, ast.Call)
-                                          and call_name(x.value) in ('wait', 'wait_for')
-                                          for r in node_roots(n) for x in walk_shallow(r)))
-    ck.need(R7, len(waits) == 1, "wait_init: the wait for initialisation was not recognised")
-    okw = '_init_done' in ' '.join(norm(n.ast) for n in gw.nodes if n.kind == 'stmt' and n.ast is not None) \
-        and gw.path_avoiding(gw.entry, [gw.exit], avoid=waits) is None
-    ck.ob(R7, f"{wi.fid} :: waits", okw,
-          "every normal return follows the completed wait for the 'initialized' signal or the end "
-          "of the simulation task" if okw else "wait_init can return without waiting", wi,
-          waits[0].ast)
-    okstate = [n for n in gw.nodes if n.kind == 'branch' and (
-        any(canon_fact(e, p) in (('self._error is None', True), ('self.is_ready()', True))
-            for e, p in decompose(n.test.ast, n.polarity)) or
-        any(canon_fact(e, p) == (("(error := self._error) is None"), True)
-            for e, p in decompose(n.test.ast, n.polarity)))]
-    # an alias counts as well: `<name> is None` where <name> was read from self._error after the wait
-    rdw = ck.rdefs(wi.fid, 'M1')
-    for n in gw.nodes:
-        if n.kind != 'branch' or n in okstate:
-            continue
-        for e, pol in decompose(n.test.ast, n.polarity):
-            t, cp = canon_fact(e, pol)
-            if cp and t.endswith(' is None') and t[:-8].isidentifier():
-                nm = t[:-8]
-                vals = rdw.value_exprs(n.test, nm)
-                defs = rdw.defs_at(n.test, nm)
-                if vals and all(not isinstance(v, str) and norm(v) == 'self._error' for v in vals) and \
-                        all(gw.dominates(waits[0], d) for d in defs):
-                    okstate.append(n)
-    p = gw.path_avoiding(waits[0], [gw.exit], avoid=okstate, start_successors_only=True)
-    ck.ob(R7, f"{wi.fid} :: error state tested", p is None,
-          "a normal return is possible only when the simulator's error slot is empty (the "
-          "'initialized' signal precedes the first evaluation, which may already have failed)"
-          if p is None else
-          "wait_init() can return normally although the simulation has already failed (only "
-          "the task's done() state is tested; the task may still be cleaning up)", wi, wi.node,
-          witness=path_witness(gw, p))
+    with ck.section('R05.7'):
+        # ------------------------------------------------------------------ R05.7
+        wi = circ.methods.get('wait_init')
+        ck.need(R7, wi is not None, "Circuit.wait_init not found")
+        gw = ck.cfg(wi.fid, 'M1')
+        waits = nodes_where(gw, lambda n: any(isinstance(x, ast.Await) and isinstance(x.value, ast.Call)
+                                              and call_name(x.value) in ('wait', 'wait_for')
+                                              for r in node_roots(n) for x in walk_shallow(r)))
+        ck.need(R7, len(waits) == 1, "wait_init: the wait for initialisation was not recognised")
+        okw = '_init_done' in ' '.join(norm(n.ast) for n in gw.nodes if n.kind == 'stmt' and n.ast is not None) \
+            and gw.path_avoiding(gw.entry, [gw.exit], avoid=waits) is None
+        ck.ob(R7, f"{wi.fid} :: waits", okw,
+              "every normal return follows the completed wait for the 'initialized' signal or the end "
+              "of the simulation task" if okw else "wait_init can return without waiting", wi,
+              waits[0].ast)
+        okstate = [n for n in gw.nodes if n.kind == 'branch' and (
+            any(canon_fact(e, p) in (('self._error is None', True), ('self.is_ready()', True))
+                for e, p in decompose(n.test.ast, n.polarity)) or
+            any(canon_fact(e, p) == (("(error := self._error) is None"), True)
+                for e, p in decompose(n.test.ast, n.polarity)))]
+        # an alias counts as well: `<name> is None` where <name> was read from self._error after the wait
+        rdw = ck.rdefs(wi.fid, 'M1')
+        for n in gw.nodes:
+            if n.kind != 'branch' or n in okstate:
+                continue
+            for e, pol in decompose(n.test.ast, n.polarity):
+                t, cp = canon_fact(e, pol)
+                if cp and t.endswith(' is None') and t[:-8].isidentifier():
+                    nm = t[:-8]
+                    vals = rdw.value_exprs(n.test, nm)
+                    defs = rdw.defs_at(n.test, nm)
+                    if vals and all(not isinstance(v, str) and norm(v) == 'self._error' for v in vals) and \
+                            all(gw.dominates(waits[0], d) for d in defs):
+                        okstate.append(n)
+        p = gw.path_avoiding(waits[0], [gw.exit], avoid=okstate, start_successors_only=True)
+        ck.ob(R7, f"{wi.fid} :: error state tested", p is None,
+              "a normal return is possible only when the simulator's error slot is empty (the "
+              "'initialized' signal precedes the first evaluation, which may already have failed)"
+              if p is None else
+              "wait_init() can return normally although the simulation has already failed (only "
+              "the task's done() state is tested; the task may still be cleaning up)", wi, wi.node,
+              witness=path_witness(gw, p))
 
 
 def _linear_form(e):
